@@ -2131,6 +2131,98 @@ func (g *attrsGGen) systematicCase(syn string, ft attrsGFeat, full bool) []strin
 	return attrsCase(srcs, []string{dep2.path, dep3.path, f.path}, g.risky)
 }
 
+// attrsGroupLikeCases: directed family for TextName / looksLikeGroup / isGroupLike. Delimited message
+// fields (field-level feature, file-level default) and proto2 groups whose name equals / differs from the
+// lower-cased simple name of the message type, with the type declared as a sibling of the field (the only
+// true group-like placement), one and two levels deeper inside the field's parent, in the parent's parent,
+// at top level, in another message, in an imported file (same and different package); as message fields,
+// oneof members, repeated fields and extensions (in a message scope and at file level).
+func attrsGroupLikeCases() [][]string {
+	var cases [][]string
+	for _, pkg := range []string{"g", "", "g.h"} {
+		for _, fileLevel := range []bool{false, true} {
+			d := " [features.message_encoding = DELIMITED]"
+			fileOpt := ""
+			if fileLevel {
+				d = ""
+				fileOpt = "option features.message_encoding = DELIMITED;\n"
+			}
+			pk, dot := "", "."
+			if pkg != "" {
+				pk = "package " + pkg + ";\n"
+				dot = "." + pkg + "."
+			}
+			dep := "edition = \"2023\";\n" + pk + "message Imp { message Deep {} }\nmessage Lonely {}\n"
+			depOther := "edition = \"2023\";\npackage gd;\nmessage Far {}\n"
+			var b strings.Builder
+			b.WriteString("edition = \"2023\";\n" + pk + "import \"gldep.proto\";\nimport \"glfar.proto\";\n" + fileOpt)
+			b.WriteString("message Top {}\nmessage Tx {}\nmessage Other { message Elsewhere {} message Sib {} }\n")
+			b.WriteString("message Outer {\n  message Up {}\n  message Mid {\n    message Sib {}\n")
+			b.WriteString("    message In1 { message One {} message In2 { message Two {} } }\n")
+			type fl struct{ typ, name string }
+			fields := []fl{
+				{"Sib", "sib"}, {"Sib", "sibx"}, {"Sib", "Sib_"},
+				{"In1.One", "one"}, {"In1.One", "onex"},
+				{"In1.In2.Two", "two"}, {"In1.In2.Two", "twox"},
+				{"In1", "in1"}, {"In1.In2", "in2"},
+				{"Up", "up"}, {"Up", "upx"},
+				{dot + "Top", "top"}, {dot + "Top", "topx"},
+				{dot + "Other.Elsewhere", "elsewhere"}, {dot + "Other.Sib", "sib2"},
+				{dot + "Imp", "imp"}, {dot + "Imp.Deep", "deep"}, {dot + "Lonely", "lonely"},
+				{".gd.Far", "far"}, {dot + "Outer.Mid", "mid"}, {dot + "Outer", "outer"},
+			}
+			n := 1
+			for _, f := range fields {
+				b.WriteString(fmt.Sprintf("    %s %s = %d%s;\n", f.typ, f.name, n, d))
+				n++
+			}
+			// repeated and oneof members
+			b.WriteString(fmt.Sprintf("    message Rep {}\n    repeated Rep rep = %d%s;\n", n, d))
+			n++
+			b.WriteString(fmt.Sprintf("    message Oo {}\n    oneof choice { Oo oo = %d%s; In1.One one2 = %d%s; %sOther.Sib sib3 = %d%s; }\n", n, d, n+1, d, dot, n+2, d))
+			n += 3
+			// a map is never delimited
+			b.WriteString(fmt.Sprintf("    map<string, Sib> sibmap = %d;\n", n))
+			b.WriteString("    extensions 100 to 199;\n")
+			// extensions declared inside Mid: scope is Mid
+			b.WriteString(fmt.Sprintf("    message Xs {}\n    message In3 { message Exd {} }\n    extend %sOuter.Mid { Xs xs = 100%s; In3.Exd exd = 101%s; %sTx tx = 102%s; }\n", dot, d, d, dot, d))
+			b.WriteString("  }\n")
+			// fields and extensions declared in Outer: scope is Outer
+			b.WriteString(fmt.Sprintf("  Up up = 1%s;\n  Mid mid = 2%s;\n  Mid.Sib sib = 3%s;\n  Mid.In1.One one = 4%s;\n", d, d, d, d))
+			b.WriteString(fmt.Sprintf("  message Ue {}\n  extend Mid { Up up2 = 110%s; Ue ue = 111%s; Mid.Xs xs = 112%s; repeated Mid.In1.In2.Two two = 113%s; }\n", d, d, d, d))
+			b.WriteString("}\n")
+			// file-level extensions: scope is the package
+			b.WriteString(fmt.Sprintf("extend Outer.Mid { Top top = 120%s; Top topx = 121%s; Other.Elsewhere elsewhere = 122%s; Outer.Mid.Sib sib = 123%s; Imp imp = 124%s; Lonely lonely = 125%s; .gd.Far far = 126%s; }\n", d, d, d, d, d, d, d))
+			// top-level message fields: scope is the package
+			b.WriteString(fmt.Sprintf("message Flat { Top top = 1%s; Other.Elsewhere elsewhere = 2%s; Imp imp = 3%s; Lonely lonely = 4%s; Outer.Up up = 5%s; Flat flat = 6%s; }\n", d, d, d, d, d, d))
+			srcs := map[string]string{"gldep.proto": dep, "glfar.proto": depOther, "gl.proto": b.String()}
+			cases = append(cases, attrsCase(srcs, []string{"gldep.proto", "glfar.proto", "gl.proto"}, false))
+		}
+		// proto2: real groups (always siblings) next to plain message fields with group-shaped names
+		pk, dot := "", "."
+		if pkg != "" {
+			pk = "package " + pkg + ";\n"
+			dot = "." + pkg + "."
+		}
+		p2 := "syntax = \"proto2\";\n" + pk +
+			"message Top {}\n" +
+			"message Outer {\n  message Up {}\n  message Mid {\n    message Sib {}\n    message In1 { message One {} }\n" +
+			"    optional group Grp = 1 { optional int32 z = 1; optional group Inner = 2 { optional int32 z = 1; } }\n" +
+			"    repeated group Rg = 2 { optional int32 z = 1; }\n" +
+			"    optional Sib sib = 3;\n    optional In1.One one = 4;\n    optional Up up = 5;\n    optional " + dot + "Top top = 6;\n" +
+			"    optional Grp grp2 = 7;\n    optional Grp.Inner inner = 8;\n" +
+			"    oneof choice { group Og = 9 { optional int32 z = 1; } Sib sib2 = 10; }\n" +
+			"    extensions 100 to 199;\n" +
+			"    extend " + dot + "Outer.Mid { optional group Xg = 100 { optional int32 z = 1; } optional Sib xsib = 101; }\n" +
+			"  }\n" +
+			"  extend Mid { optional group Og2 = 110 { optional int32 z = 1; } optional Up up = 111; }\n" +
+			"}\n" +
+			"extend Outer.Mid { optional group Fg = 120 { optional int32 z = 1; } optional Top top = 121; repeated group Frg = 122 { optional int32 z = 1; } }\n"
+		cases = append(cases, attrsCase(map[string]string{"gl2.proto": p2}, []string{"gl2.proto"}, false))
+	}
+	return cases
+}
+
 func (e *attrsEngine) Gen(r *Rand, tier string) [][]string {
 	g := &attrsGGen{r: r}
 	var cases [][]string
@@ -2173,6 +2265,8 @@ func (e *attrsEngine) Gen(r *Rand, tier string) [][]string {
 			cases = append(cases, c)
 		}
 	}
+	// 0c. directed: where the message type of a delimited field is declared (TextName / group-likeness)
+	cases = append(cases, attrsGroupLikeCases()...)
 	// 1. systematic: every valid field shape under proto2, proto3 and editions with file-level overrides
 	cases = append(cases, g.systematicCase("proto2", attrsGNoFeat(), thorough))
 	cases = append(cases, g.systematicCase("proto3", attrsGNoFeat(), thorough))
